@@ -3,7 +3,7 @@
 import itertools
 
 from ..common import Result, Violation, pmap, digest
-from ..harness import Sut
+from ..harness import Sut, poke_formatter
 from ..oracles import lex
 
 CORE = ["a", " ", "\n", "\r", "\r\n", ";", "(", ")", "]", "*/", "*", "/", "G1 X9", "M3 S1", '"']
@@ -39,6 +39,7 @@ def run_case(style, entry, text, first_style=None):
         st.g.move(x=0, comment="warm up")
         st.g.format.set_comment_symbols(style)
         st.rec.take()
+    poke_formatter(st.g.format)
     try:
         ENTRIES[entry](st.g, text)
         exc = None
